@@ -70,6 +70,20 @@ class Env:
         torch.Tensor.exponential_, torch.poisson, torch.bernoulli = self.orig
 
 
+def collect_online(gen):
+    """consume an online encoder the way a caller that keeps the slices would: returns (references, copies taken at yield time)"""
+    refs, copies = [], []
+    for sl in gen:
+        refs.append(sl)
+        copies.append(sl.clone())
+    return refs, copies
+
+
+def slices_stable(refs, copies):
+    """a slice handed to the caller is the caller's: it must not change when later slices are produced"""
+    return all(r.shape == c.shape and bool(torch.equal(r, c)) for r, c in zip(refs, copies))
+
+
 def check_train(tally, case, train_rows, steps, inshape, intens, gap_steps, key_prefix):
     """train_rows: list of per-step tensors (or a stacked tensor)"""
     if isinstance(train_rows, torch.Tensor):
@@ -148,7 +162,10 @@ def shard(enc_kind, dt, steps, freq, tier):
                                 g = Guard(xin)
                                 out = enc(xin, online=online)
                                 if online:
-                                    out = [o.clone() for o in out]
+                                    refs, out = collect_online(out)
+                                    if not slices_stable(refs, out):
+                                        tally.violation(f"{enc_kind}:online:slice-overwritten", case, "a slice yielded earlier changed while later slices "
+                                                        "were produced (the generator re-uses one buffer)")
                                 # the caller's intensity tensor comes back untouched (also after an online generator is exhausted)
                                 g.release(tally, f"input-mutated:{enc_kind}:{'online' if online else 'offline'}", case)
                             except Exception as ex:
@@ -189,7 +206,10 @@ def seeds_shard(tier):
                         tally.add("evaluations")
                         try:
                             o = enc(x.clone(), online=online)
-                            o = [s.clone() for s in o] if online else o
+                            if online:
+                                refs, o = collect_online(o)
+                                if not slices_stable(refs, o):
+                                    tally.violation(f"{enc_kind}:online:slice-overwritten", case, "a slice yielded earlier changed while later slices were produced")
                         except Exception as ex:
                             tally.violation(f"exception:{enc_kind}:{'online' if online else 'offline'}:{type(ex).__name__}", case, repr(ex))
                             o = None
